@@ -157,11 +157,15 @@ def apply_err(n):
 
 
 # ------------------------------------------------------------------------------------------------ root nodes
+expr_variants_cached = []
+
+
 def expr_variants(prog):
     lay = prog.layouts
     en = lay.canon(["expr", "Expr"])
     if en not in lay.enums:
         raise Unsupported("enum Expr not found in the source")
+    expr_variants_cached[:] = list(lay.enums[en])
     return en, [(v, lay.enum_tuple_types.get((en, v), [])) for v in lay.enums[en]]
 
 
